@@ -21,7 +21,8 @@ from collections import deque
 from copy import deepcopy
 from typing import TypeVar, Callable
 
-from ..message import constants
+from ..message import constants, DefinedMessage
+from ..message.avp import Avp
 from ..message.commands import *
 from ..message.avp.grouped import FailedAvp
 from ._helpers import parse_diameter_uri, validate_message_avps
@@ -623,7 +624,34 @@ class Node:
         if hasattr(msg, "proxy_info"):
             answer_msg.proxy_info = msg.proxy_info
 
+        if not isinstance(answer_msg, DefinedMessage):
+            # a command with no python implementation: its attributes do not
+            # produce any AVPs, the base AVPs have to be added as such
+            if hasattr(msg, "session_id"):
+                answer_msg.append_avp(Avp.new(
+                    constants.AVP_SESSION_ID, value=msg.session_id))
+            answer_msg.append_avp(Avp.new(
+                constants.AVP_ORIGIN_HOST, value=self.origin_host.encode()))
+            answer_msg.append_avp(Avp.new(
+                constants.AVP_ORIGIN_REALM, value=self.realm_name.encode()))
+            answer_msg.avps += msg.find_avps((constants.AVP_PROXY_INFO, 0))
+
         return answer_msg
+
+    @staticmethod
+    def _set_result_code(answer_msg: _AnyAnswerType, result_code: int,
+                         error_message: str = None):
+        """Set the Result-Code, and optionally Error-Message, of an answer
+        produced by `_generate_answer`."""
+        answer_msg.result_code = result_code
+        if error_message:
+            answer_msg.error_message = error_message
+        if not isinstance(answer_msg, DefinedMessage):
+            answer_msg.append_avp(Avp.new(
+                constants.AVP_RESULT_CODE, value=result_code))
+            if error_message:
+                answer_msg.append_avp(Avp.new(
+                    constants.AVP_ERROR_MESSAGE, value=error_message))
 
     def _generate_connection_id(self, cur_iteration: int = 0) -> str:
         """Produces a connection ID that is unique to this node instance."""
@@ -864,8 +892,9 @@ class Node:
                 f"request, rejecting it")
             err = self._generate_answer(conn, msg)
             # Spec doesn't say what error code to use?
-            err.result_code = constants.E_RESULT_CODE_DIAMETER_UNABLE_TO_COMPLY
-            err.error_messge = "Duplicate request detected"
+            self._set_result_code(
+                err, constants.E_RESULT_CODE_DIAMETER_UNABLE_TO_COMPLY,
+                "Duplicate request detected")
             self.send_message(conn, err)
             return
 
@@ -903,8 +932,9 @@ class Node:
                 # an answer is never answered
                 return
             err = self._generate_answer(conn, msg)
-            err.result_code = constants.E_RESULT_CODE_DIAMETER_UNABLE_TO_COMPLY
-            err.error_message = "Message handling error"
+            self._set_result_code(
+                err, constants.E_RESULT_CODE_DIAMETER_UNABLE_TO_COMPLY,
+                "Message handling error")
             self.send_message(conn, err)
 
     def _receive_app_request(self, conn: PeerConnection, message: _AnyMessageType):
@@ -921,7 +951,8 @@ class Node:
                 f"{hex(message.header.hop_by_hop_identifier)}")
 
             err = self._generate_answer(conn, message)
-            err.result_code = constants.E_RESULT_CODE_DIAMETER_APPLICATION_UNSUPPORTED
+            self._set_result_code(
+                err, constants.E_RESULT_CODE_DIAMETER_APPLICATION_UNSUPPORTED)
             self.send_message(conn, err)
             return
 
@@ -932,7 +963,8 @@ class Node:
                 f"{hex(message.header.hop_by_hop_identifier)}")
 
             err = self._generate_answer(conn, message)
-            err.result_code = constants.E_RESULT_CODE_DIAMETER_REALM_NOT_SERVED
+            self._set_result_code(
+                err, constants.E_RESULT_CODE_DIAMETER_REALM_NOT_SERVED)
             self.send_message(conn, err)
             return
 
@@ -974,7 +1006,8 @@ class Node:
             f"{hex(message.header.hop_by_hop_identifier)}")
 
         err = self._generate_answer(conn, message)
-        err.result_code = constants.E_RESULT_CODE_DIAMETER_APPLICATION_UNSUPPORTED
+        self._set_result_code(
+            err, constants.E_RESULT_CODE_DIAMETER_APPLICATION_UNSUPPORTED)
         self.send_message(conn, err)
 
     def _receive_app_answer(self, conn: PeerConnection, message: Message):
